@@ -119,7 +119,7 @@ def load_overlay(path, variants=frozenset()):
             flush()
             h = ln[4:].strip()
             m = re.fullmatch(r'(before|after|after-stmt)\s+<<(.*)>>', h)
-            m2 = re.fullmatch(r'(loop|closure)\s+(\d+)\s+(outer|pre|spec|post)', h)
+            m2 = re.fullmatch(r'(loop|closure)\s+(\d+)\s+(outer|pre|spec|post|body-start|body-end)', h)
             if m:
                 sec = (m.group(1), m.group(2), no)
             elif m2:
@@ -225,6 +225,82 @@ def _drop_logging(body, dropped):
     return out
 
 
+OPAQUE_MACROS = {'format': '__fmt_opaque', 'anyhow': 'anyhow'}
+
+
+def _opaque_messages(body, dropped):
+    """T9: the TEXT of a message is not modelled. `format!(..)` becomes a call of the opaque `__fmt_opaque()` and
+    `anyhow!(..)` a call of the opaque error constructor `anyhow()`; the macro arguments (format string and its
+    operands) are dropped. Whether an error / a string is produced, and where, is unchanged."""
+    out = []
+    i, n = 0, len(body)
+    while i < n:
+        t = body[i]
+        if t.kind == 'ident' and t.text in OPAQUE_MACROS and t.origin == 'orig':
+            j = next_sig(body, i + 1)
+            pv = prev_sig(body, i - 1)
+            if j < n and body[j].text == '!' and not (pv >= 0 and body[pv].text in ('.', '::')):
+                k = next_sig(body, j + 1)
+                if k < n and body[k].text == '(':
+                    e = match_close(body, k)
+                    dropped.append(('T9', render(body[i:e + 1]), list(body[i:e + 1])))
+                    out += lit('%s()' % OPAQUE_MACROS[t.text], 'T9')
+                    i = e + 1
+                    continue
+        out.append(t)
+        i += 1
+    return out
+
+
+def _operator_calls(body, dropped):
+    """T10: `let .. = &E1 - &E2;` becomes `let .. = core::ops::Sub::sub(&E1, &E2);` - the trait-method call the
+    binary operator stands for by definition (Verus' front end cannot resolve the operator on references to a
+    user type, it can resolve the call). Only this exact shape is rewritten: a let initialiser with exactly one
+    top-level `-`, both operands starting with `&`."""
+    out = []
+    i, n = 0, len(body)
+    while i < n:
+        t = body[i]
+        if t.origin == 'orig' and t.kind == 'ident' and t.text == 'let':
+            # find `=` and `;` of this statement at depth 0
+            j, eq, end, depth = i + 1, None, None, 0
+            while j < n:
+                x = body[j]
+                if x.kind == 'punct' and x.text in rsscan.OPEN:
+                    j = match_close(body, j)
+                elif x.kind == 'punct' and x.text == '=' and eq is None:
+                    eq = j
+                elif x.kind == 'punct' and x.text == ';':
+                    end = j
+                    break
+                elif x.kind == 'punct' and x.text in rsscan.CLOSE:
+                    break
+                j += 1
+            if eq is not None and end is not None:
+                init = body[eq + 1:end]
+                minus, k = [], 0
+                while k < len(init):
+                    x = init[k]
+                    if x.kind == 'punct' and x.text in rsscan.OPEN:
+                        k = match_close(init, k)
+                    elif x.kind == 'punct' and x.text == '-':
+                        minus.append(k)
+                    k += 1
+                f = next_sig(init, 0)
+                if len(minus) == 1 and f < len(init) and init[f].text == '&':
+                    m = minus[0]
+                    r0 = next_sig(init, m + 1)
+                    if r0 < len(init) and init[r0].text == '&' and [x for x in init[:m] if x.sig()]:
+                        dropped.append(('T10', '-', [init[m]]))
+                        out += body[i:eq + 1]
+                        out += lit(' core::ops::Sub::sub(', 'T10') + _trim(init[:m]) + lit(', ', 'T10') + _trim(init[m + 1:]) + lit(')', 'T10')
+                        i = end
+                        continue
+        out.append(t)
+        i += 1
+    return out
+
+
 class LoopCounter:
     def __init__(self):
         self.n = 0
@@ -253,6 +329,12 @@ def _desugar(body, spec, ctr, dropped, used):
             lsp = spec.sections.get(('loop', k, 'spec')) if spec else None
             lpost = spec.sections.get(('loop', k, 'post')) if spec else None
             louter = spec.sections.get(('loop', k, 'outer')) if spec else None
+            lbs = spec.sections.get(('loop', k, 'body-start')) if spec else None
+            lbe = spec.sections.get(('loop', k, 'body-end')) if spec else None
+            if lbs is not None:
+                used.add(('loop', k, 'body-start'))
+            if lbe is not None:
+                used.add(('loop', k, 'body-end'))
             if louter is not None:
                 used.add(('loop', k, 'outer'))
                 out += splice_toks(louter)
@@ -303,7 +385,11 @@ def _desugar(body, spec, ctr, dropped, used):
                 out += _trim(pat)
                 out += lit(') => ', 'T3')
                 out.append(body[e])
+                if lbs is not None:
+                    out += splice_toks('\n' + lbs)
                 out += _desugar(inner, spec, ctr, dropped, used)
+                if lbe is not None:
+                    out += splice_toks('\n' + lbe)
                 out.append(body[close])
                 out += lit(', None => { break; } } }', 'T3')
                 if lpost is not None:
@@ -329,7 +415,11 @@ def _desugar(body, spec, ctr, dropped, used):
             if lsp is not None:
                 out += lit('\n', 'T6') + splice_toks(lsp)
             out.append(body[e])
+            if lbs is not None:
+                out += splice_toks('\n' + lbs)
             out += _desugar(body[e + 1:close], spec, ctr, dropped, used)
+            if lbe is not None:
+                out += splice_toks('\n' + lbe)
             out.append(body[close])
             if lpost is not None:
                 out += splice_toks('\n' + lpost)
@@ -487,7 +577,7 @@ def _apply_anchor(toks, where, fragment, text, fname):
     the statement that contains it (`after-stmt`: the next `;` at the same bracket depth). `A>> | <<B` gives
     alternatives, tried in order: the first one that matches exactly once is used."""
     alts = [a.strip() for a in fragment.split('>> | <<')]
-    idx = [i for i, t in enumerate(toks) if t.sig() and t.origin in ('orig', 'T3', 'T8')]
+    idx = [i for i, t in enumerate(toks) if t.sig() and t.origin in ('orig', 'T3', 'T8', 'T9')]
     texts = [toks[i].text for i in idx]
     chosen = None
     counts = []
@@ -527,9 +617,107 @@ def _apply_anchor(toks, where, fragment, text, fname):
     return toks[:pos] + sp + toks[pos:]
 
 
+def _collect_lets(body):
+    """(name, [significant token texts of the initialiser]) for every `let [mut] NAME [: T] = INIT;` in source order."""
+    lets = []
+    i, n = 0, len(body)
+    while i < n:
+        t = body[i]
+        if t.kind == 'ident' and t.text == 'let' and t.origin == 'orig':
+            j = next_sig(body, i + 1)
+            if j < n and body[j].text == 'mut':
+                j = next_sig(body, j + 1)
+            if j < n and body[j].kind == 'ident':
+                name = body[j].text
+                k, eq, end = j + 1, None, None
+                while k < n:
+                    x = body[k]
+                    if x.kind == 'punct' and x.text in rsscan.OPEN:
+                        k = match_close(body, k)
+                    elif x.kind == 'punct' and x.text == '=' and eq is None:
+                        eq = k
+                    elif x.kind == 'punct' and x.text == ';':
+                        end = k
+                        break
+                    elif x.kind == 'punct' and x.text in rsscan.CLOSE:
+                        break
+                    k += 1
+                if eq is not None and end is not None:
+                    lets.append((name, [x.text for x in body[eq + 1:end] if x.sig()]))
+        i += 1
+    return lets
+
+
+class LetList(list):
+    pass
+
+
+def _collect_for_patterns(body):
+    """loop ordinal (pre-order over for/while/loop, as in _desugar) -> identifiers of the `for` pattern, in order.
+    `$for<K>#i` in overlay text stands for the i-th of them."""
+    pats, k = {}, 0
+    for i, t in enumerate(body):
+        if t.origin == 'orig' and t.kind == 'ident' and t.text in ('for', 'while', 'loop'):
+            nx = next_sig(body, i + 1)
+            pv = prev_sig(body, i - 1)
+            if t.text == 'for' and nx < len(body) and body[nx].text == '<':
+                continue
+            if pv >= 0 and body[pv].text in ('.', '::'):
+                continue
+            if t.text == 'for':
+                j = i + 1
+                while j < len(body) and not _is_kw(body[j], 'in'):
+                    j += 1
+                pats[k] = [x.text for x in body[i + 1:j] if x.kind == 'ident' and x.text not in ('mut', 'ref', '_')]
+            k += 1
+    return pats
+
+
+def _subst_placeholders(text, lets, fname):
+    """`$let<TOKENS>#K` in overlay text stands for the name bound by the K-th `let` whose initialiser contains the
+    token sequence TOKENS - so that the overlay survives a renamed local."""
+    def rep(m):
+        frag = [t.text for t in tokenize(m.group(1)) if t.sig()]
+        k = int(m.group(2))
+        hits = [nm for (nm, init) in lets
+                if any(init[a:a + len(frag)] == frag for a in range(0, len(init) - len(frag) + 1))]
+        if k >= len(hits):
+            raise Unsupported('%s: placeholder %s: only %d matching let statements' % (fname, m.group(0), len(hits)))
+        return hits[k]
+    text = re.sub(r'\$let<([^>]+)>#(\d+)', rep, text)
+
+    def repf(m):
+        k, i = int(m.group(1)), int(m.group(2))
+        pats = lets.forpats
+        if k not in pats or i >= len(pats[k]):
+            raise Unsupported('%s: placeholder %s: no such loop variable' % (fname, m.group(0)))
+        return pats[k][i]
+    return re.sub(r'\$for<(\d+)>#(\d+)', repf, text)
+
+
+def _resolve_spec(spec, body, fname):
+    """a copy of the overlay block with the $let placeholders resolved against this function body"""
+    if spec is None:
+        return None
+    alltext = ''.join(spec.sections.values()) + ''.join(a[1] + a[2] for a in spec.anchors)
+    if '$let<' not in alltext and '$for<' not in alltext:
+        return spec
+    lets = LetList(_collect_lets(body))
+    lets.forpats = _collect_for_patterns(body)
+    c = FnSpec(spec.file, spec.impl_re, spec.name)
+    c.tags, c.ctags, c.ret, c.lineno = spec.tags, spec.ctags, spec.ret, spec.lineno
+    c.sections = dict((k, _subst_placeholders(v, lets, fname)) for k, v in spec.sections.items())
+    c.anchors = [(w, _subst_placeholders(f, lets, fname), _subst_placeholders(t, lets, fname), no) for (w, f, t, no) in spec.anchors]
+    c.orig = spec
+    return c
+
+
 def extract_fn(item, file, impl_key, spec, twin_false=False):
     """item: rsscan.Item of kind fn. Returns FnOut."""
     dropped = []
+    orig_spec = spec
+    if item.body_open is not None:
+        spec = _resolve_spec(spec, item.toks[item.body_open + 1:item.body_close], item.name)
     _strip_lead(item, dropped)
     toks = item.toks
     if item.body_open is None:
@@ -579,6 +767,8 @@ def extract_fn(item, file, impl_key, spec, twin_false=False):
         out += splice_toks('\n' + spec.sections['body-start'])
         used.add('body-start')
     b = _drop_logging(body, dropped)
+    b = _opaque_messages(b, dropped)
+    b = _operator_calls(b, dropped)
     cctr = LoopCounter()
     b = _closures(b, spec, cctr, dropped, used)
     ctr = LoopCounter()
@@ -596,6 +786,7 @@ def extract_fn(item, file, impl_key, spec, twin_false=False):
             if s not in used:
                 raise Unsupported('%s: overlay section %r has no place in the code (loop ordinal gone?)' % (item.name, s))
         spec.used = True
+        orig_spec.used = True
     # ---------------- provenance check ----------------
     want = [t for t in toks[item.lead_end:] if t.sig()]
     dropped_ids = set()
@@ -628,7 +819,7 @@ def extract_fn(item, file, impl_key, spec, twin_false=False):
         raise Unsupported('provenance check failed for %s: emitted source tokens are not the source minus T2/T3 spans, '
                           'in source order' % item.name)
     for t in out:
-        if t.origin not in ('orig', 'T3', 'T6', 'T7', 'T8'):
+        if t.origin not in ('orig', 'T3', 'T6', 'T7', 'T8', 'T9', 'T10'):
             raise Unsupported('provenance: unknown origin %s' % t.origin)
     rt = [t.text for t in tokenize(render(out)) if t.sig()]
     if rt != [t.text for t in out if t.sig()]:
@@ -663,7 +854,14 @@ def extract_contract(item, spec):
         out += splice_toks('requires\n' + _strip_markers(spec.sections['requires']))
     if 'ensures' in spec.sections:
         out += splice_toks('ensures\n' + _strip_markers(spec.sections['ensures']))
-    out += lit('{ unimplemented!() }', 'T6')
+    if arrow is not None and any(_is_kw(t, 'impl') for t in sig[arrow:]):
+        # an `impl Trait` return type needs a body rustc can infer the type from: the real body (T2/T9 applied) is
+        # kept, unverified (external_body), so that the opaque type is the real one
+        dr = []
+        body = _opaque_messages(_drop_logging(toks[item.body_open + 1:item.body_close], dr), dr)
+        out += [toks[item.body_open]] + body + [toks[item.body_close]]
+    else:
+        out += lit('{ unimplemented!() }', 'T6')
     spec.used = True
     return out
 
@@ -774,9 +972,16 @@ def build_unit(name, repo, template_path, overlay_path, twin_false=False, varian
                     s.foreign = True
                 foreign += fs
     byk = {}
-    for s in specs + foreign:
+    for s in foreign:
         if s.key() in byk:
             raise Unsupported('overlay: duplicate fn block %s' % (s.key(),))
+        byk[s.key()] = s
+    own = set()
+    for s in specs:
+        # the unit's own block wins over a foreign one (e.g. a contract-free stub of a callee)
+        if s.key() in own:
+            raise Unsupported('overlay: duplicate fn block %s' % (s.key(),))
+        own.add(s.key())
         byk[s.key()] = s
     cache = {}
     u = Unit(name)
